@@ -190,9 +190,9 @@ func New(o Options) *Rig {
 			http.Error(w, "no websocket here", http.StatusForbidden)
 			return
 		case strings.HasPrefix(rq.URL.Path, "/hang/"):
-			// a backend that takes the upgrade request and does not answer it for 70 s (hung process, blocked handler)
+			// a backend that takes the upgrade request and does not answer it for 150 s (hung process, blocked handler)
 			select {
-			case <-time.After(70 * time.Second):
+			case <-time.After(150 * time.Second):
 			case <-rq.Context().Done():
 			}
 			http.Error(w, "too late", http.StatusForbidden)
